@@ -62,7 +62,7 @@ PROPS = {
         explanation='Lean: chunk_line_le_4096, whole_line_le_4096, main_line_le_4096, current_chunk_fits; facts: the sessions.Options literal and its assignment in Save; tie: exact line lengths; oracle: attributes and length of every raw Set-Cookie line',
     ),
     'C20': dict(
-        family='discovery', fields=['r', 'doc', 'times'], timeout=1500,
+        family='discovery', fields=['r', 'doc', 'es', 'times'], timeout=1500,
         facts=['initializeMetadataLoops', 'metadataRetryIntervalSec', 'discoveryMaxRetries', 'discoveryBaseDelaySec', 'discoveryMaxDelaySec', 'initWaitSec'],
         trusted=['real-time liveness is represented by the virtual clock (testing/synctest); the metadata cache\'s 5-minute clean-up goroutine is stopped through the overlay hook (it only drops an already expired document) '
                  'because a goroutine waiting for the mutex GetMetadata holds during a whole round is not durably blocked under synctest',
